@@ -30,7 +30,7 @@ def run_arena(ctx, traces, ops, profile, fields=ALL_FIELDS, oracle_props=None, s
     if not ok:
         return False
     if not any(o["name"] == "build:driver" for o in ctx.obligations):
-        if not build_driver(ctx):
+        if not build_driver(ctx, "arena"):
             return False
     exe = bin_path("arena")
     env = dict(os.environ, VERIF_SEED=str(ctx.seed + seed_offset))
